@@ -186,11 +186,12 @@ fn timelock_pool() -> Vec<Elements> {
 pub fn gen_case(ctx: &mut Ctx, it: u64) -> Option<Case> {
     let depth = 2 + (it % 5) as usize;
     let mut cfg = GenCfg { fail: it % 4 == 0, jets: true, pin_witness: it % 2 == 0, ..GenCfg::default() };
-    match it % 3 {
+    match it % 4 {
         0 => {} // all 471 jets
+        3 => cfg.jet_pool = Elements::ALL.iter().copied().filter(|j| matches!(shared::jet_family(*j), "hash" | "elements-hash" | "secp")).collect(),
         1 => {
             cfg.jet_pool = progs::simple_jets();
-            for _ in 0..(cfg.jet_pool.len() / 8) {
+            for _ in 0..(cfg.jet_pool.len() / 3) {
                 cfg.jet_pool.push(Elements::Verify);
             }
         }
@@ -264,7 +265,7 @@ pub fn replay(ctx: &mut Ctx, case: &str) {
 }
 
 pub fn run(ctx: &mut Ctx) {
-    for round in 0..ctx.scale(2, 20) {
+    for round in 0..ctx.scale(2, 30) {
         for j in Elements::ALL {
             match sweep_case(ctx, j) {
                 Some(c) => {
@@ -275,7 +276,7 @@ pub fn run(ctx: &mut Ctx) {
         }
         let _ = round;
     }
-    let n = ctx.scale(2400, 60_000);
+    let n = ctx.scale(2400, 150_000);
     let mut done = 0;
     let mut it = 0u64;
     while done < n && it < 20 * n {
